@@ -345,6 +345,7 @@ def signature(beh, f):
         "prod_order_sensitive": prod_order_sensitive(beh),
         "fmt": f.get("fmt"),
         "compiled_layer_types": f.get("layer_types"),
+        "dtype_mix_error": "expected scalar type" in (f.get("detail") or ""),
     }
 
 
